@@ -2,23 +2,34 @@ package main
 
 // C19 - a session can be shared by concurrent goroutines.
 //
-//   c19replay <schedules.ndjson> [workers]  force Session.tla schedules on session.Session with gates
-//   c19free   <out.ndjson> <rounds> <goroutines>  free-running goroutines, hook events recorded for TraceSession.tla
+//   c19replay <world.json> <schedules.ndjson> [workers]   force Session.tla schedules on session.Session
+//   c19free   <world.json> <out.ndjson> <rounds> <goroutines>  free-running goroutines, hook events recorded for TraceSession.tla
 //
-// World (all real): a directory server D and one server per model address
-// ("A", "B": bus.StandAloneServer on a harness-owned listener that counts
-// accepted and closed connections) hosting one PingPong service per model
-// goroutine ("A.g1", ...), so that the service name seen at a gate identifies
-// the goroutine.  The session under test is a fresh session.NewSession(D) per
-// schedule.  Observations: the hook event of each step (hit / miss / dialed /
-// insert / dup), the outcome of every Proxy() and of a Hello() call through
-// it, and - at quiescence - the number of live connections per endpoint as
-// seen by the SERVER side.
+// World (all real): a directory server D and one server per live model address
+// ("E", "F": bus.StandAloneServer on a harness-owned listener that counts
+// accepted and closed connections, can hold back what a new connection sends
+// (so that "connected" and "authenticated" are separate steps), can cut a
+// connection, and whose authenticator refuses on demand).  Services are
+// registered in the directory under the address LISTS of the specification
+// (world.json = the constant Adv exported by TLC): a dead address is a unix
+// path nobody listens on, the test range is tcp://198.18.0.1:9559.  One service
+// per list kind and model goroutine ("xe.g1", ...), so that the service name
+// seen at a gate identifies the goroutine; kinds that list both live addresses
+// are hosted by both servers under the same service id.  The session under
+// test is a fresh session.NewSession(D) per schedule.  Observations: the point
+// every goroutine reaches at each step, the hook events (hit / miss / dialed /
+// insert / dup / closed) with the addresses they carry, the outcome of every
+// Proxy() and of a Hello() call through it, the closers that are started, and
+// - at quiescence - the connections as seen by the SERVER side: live per
+// endpoint, accepted minus closed for refused and duplicate dials.
 
 import (
 	"encoding/json"
 	"fmt"
+	"io"
+	"io/ioutil"
 	"os"
+	"path/filepath"
 	"sort"
 	"strconv"
 	"strings"
@@ -31,6 +42,7 @@ import (
 	"github.com/lugu/qiloop/bus/net"
 	"github.com/lugu/qiloop/bus/services"
 	"github.com/lugu/qiloop/bus/session"
+	"github.com/lugu/qiloop/bus/util"
 	"github.com/lugu/qiloop/examples/pong"
 	"github.com/lugu/qiloop/vhook"
 	"verif/harness/hlib"
@@ -43,23 +55,73 @@ func init() {
 	hlib.Register("c19free-child", cmdC19FreeChild)
 }
 
-// ---- counting listener ----------------------------------------------------------
+const (
+	c19CountBound  = 3 * time.Second // server-side connection counts settle (>= 1000 x a local close)
+	c19CloserBound = 1 * time.Second // a closer goroutine that has been started reaches its first line
+	c19TestRange   = "tcp://198.18.0.1:9559"
+	// failure budget: a kind of step (signature) that made c19FailsPerSig schedules fail is not replayed
+	// again by that child; a child stops its share after c19FailsPerChild failing schedules or once the
+	// failing schedules have cost c19FailTime; no child is (re)started after c19FailsTotal failures
+	c19FailsPerSig   = 2
+	c19FailsPerChild = 12
+	c19FailTime      = 25 * time.Second
+	c19FailsTotal    = 40
+	c19MaxCrashes    = 4
+)
+
+// ---- listener: counts, holds, cuts ------------------------------------------------------
+
+type acceptNote struct {
+	ep string
+	s  *countedStream
+}
 
 type countingListener struct {
 	net.Listener
+	name     string
 	accepted int64
 	closed   int64
+	w        *c19World
 }
 
 type countedStream struct {
 	net.Stream
-	l    *countingListener
-	once sync.Once
+	l      *countingListener
+	once   sync.Once
+	held   chan struct{} // nil: not held; closed: released
+	unheld sync.Once
+	gone   chan struct{}
+}
+
+func (s *countedStream) Read(p []byte) (int, error) {
+	if s.held != nil {
+		select {
+		case <-s.held:
+		case <-s.gone:
+			return 0, io.ErrClosedPipe
+		}
+	}
+	return s.Stream.Read(p)
 }
 
 func (s *countedStream) Close() error {
-	s.once.Do(func() { atomic.AddInt64(&s.l.closed, 1) })
+	s.once.Do(func() { atomic.AddInt64(&s.l.closed, 1); close(s.gone) })
 	return s.Stream.Close()
+}
+
+func (s *countedStream) unhold() {
+	if s.held != nil {
+		s.unheld.Do(func() { close(s.held) })
+	}
+}
+
+func (s *countedStream) isClosed() bool {
+	select {
+	case <-s.gone:
+		return true
+	default:
+		return false
+	}
 }
 
 func (l *countingListener) Accept() (net.Stream, error) {
@@ -68,38 +130,178 @@ func (l *countingListener) Accept() (net.Stream, error) {
 		return nil, err
 	}
 	atomic.AddInt64(&l.accepted, 1)
-	return &countedStream{Stream: s, l: l}, nil
+	cs := &countedStream{Stream: s, l: l, gone: make(chan struct{})}
+	if l.w != nil && atomic.LoadInt32(&l.w.hold) != 0 {
+		cs.held = make(chan struct{})
+		l.w.heldMu.Lock()
+		l.w.heldStreams = append(l.w.heldStreams, cs)
+		l.w.heldMu.Unlock()
+		select {
+		case l.w.acceptCh <- acceptNote{l.name, cs}:
+		default:
+		}
+	}
+	return cs, nil
 }
 
 func (l *countingListener) live() int64 {
 	return atomic.LoadInt64(&l.accepted) - atomic.LoadInt64(&l.closed)
 }
 
+// switchAuth: accepts unless told to refuse; in free-running mode refuses every n-th authentication.
+type switchAuth struct {
+	refuse  int32
+	every   int32
+	n       int32
+	refused int32
+}
+
+func (a *switchAuth) Authenticate(user, token string) bool {
+	if atomic.LoadInt32(&a.refuse) != 0 {
+		atomic.AddInt32(&a.refused, 1)
+		return false
+	}
+	if e := atomic.LoadInt32(&a.every); e > 0 && atomic.AddInt32(&a.n, 1)%e == 0 {
+		atomic.AddInt32(&a.refused, 1)
+		return false
+	}
+	return true
+}
+
 // ---- world ------------------------------------------------------------------------
 
+type c19Spec struct {
+	Adv map[string][]string `json:"adv"` // service kind -> model addresses
+	Eps []string            `json:"eps"`
+	Gor []string            `json:"gor"`
+}
+
+func loadC19Spec(path string) c19Spec {
+	var sp c19Spec
+	b, err := ioutil.ReadFile(path)
+	if err != nil {
+		hlib.Fatal("world: %v", err)
+	}
+	if err := json.Unmarshal(b, &sp); err != nil {
+		hlib.Fatal("world %s: %v", path, err)
+	}
+	sort.Strings(sp.Eps)
+	sort.Strings(sp.Gor)
+	return sp
+}
+
+func (sp c19Spec) live(a string) bool {
+	for _, e := range sp.Eps {
+		if e == a {
+			return true
+		}
+	}
+	return false
+}
+
+// firstUsable: the address SelectEndPoint must connect to ("" if none)
+func (sp c19Spec) firstUsable(kind string) string {
+	for _, a := range sp.Adv[kind] {
+		if a != "T" && sp.live(a) {
+			return a
+		}
+	}
+	return ""
+}
+
+func (sp c19Spec) kinds() []string {
+	var l []string
+	for k := range sp.Adv {
+		l = append(l, k)
+	}
+	sort.Strings(l)
+	return l
+}
+
 type c19Endpoint struct {
+	name string
 	addr string
 	lis  *countingListener
 	srv  bus.Server
 	sess bus.Session
+	auth *switchAuth
 }
 
 type c19World struct {
+	spec  c19Spec
 	addrD string
 	dir   bus.Server
 	eps   map[string]*c19Endpoint
-	names []string // service names registered
+	real  map[string]string // model address -> real address
+	model map[string]string // real address -> model address
 	floor map[string]int64
+
+	hold        int32
+	acceptCh    chan acceptNote
+	heldMu      sync.Mutex
+	heldStreams []*countedStream
 }
 
-func newC19World(addrs []string, gors []string) (*c19World, error) {
-	w := &c19World{addrD: newAddr(), eps: map[string]*c19Endpoint{}}
+// listNamespace registers every service under the address list of its kind; a kind hosted by two
+// servers is registered once and served by both under the same id.
+type listNamespace struct {
+	bus.Namespace
+	dir services.ServiceDirectoryProxy
+	w   *c19World
+	ids *sync.Map // name -> id (shared by the servers of one world)
+	own map[uint32]bool
+}
+
+func kindOf(name string) string { return strings.SplitN(name, ".", 2)[0] }
+
+func (w *c19World) infoFor(name string) services.ServiceInfo {
+	var l []string
+	for _, a := range w.spec.Adv[kindOf(name)] {
+		l = append(l, w.real[a])
+	}
+	return services.ServiceInfo{Name: name, MachineId: util.MachineID(), ProcessId: util.ProcessID(), Endpoints: l}
+}
+
+func (n *listNamespace) Reserve(name string) (uint32, error) {
+	if id, ok := n.ids.Load(name); ok {
+		return id.(uint32), nil
+	}
+	id, err := n.dir.RegisterService(n.w.infoFor(name))
+	if err != nil {
+		return 0, err
+	}
+	n.ids.Store(name, id)
+	n.own[id] = true
+	return id, nil
+}
+
+func (n *listNamespace) Enable(id uint32) error {
+	if !n.own[id] {
+		return nil
+	}
+	return n.dir.ServiceReady(id)
+}
+
+func newC19World(sp c19Spec) (*c19World, error) {
+	w := &c19World{spec: sp, addrD: newAddr(), eps: map[string]*c19Endpoint{}, real: map[string]string{}, model: map[string]string{},
+		acceptCh: make(chan acceptNote, 256)}
 	var err error
 	if w.dir, err = directory.NewServer(w.addrD, nil); err != nil {
 		return nil, err
 	}
-	for _, a := range addrs {
-		ep := &c19Endpoint{addr: newAddr()}
+	w.real["T"] = c19TestRange
+	w.real["X"] = newAddr() // nobody listens there
+	for _, a := range sp.Eps {
+		w.real[a] = newAddr()
+	}
+	for m, r := range w.real {
+		w.model[r] = m
+	}
+	w.model[w.addrD] = "D"
+	ids := &sync.Map{}
+	var first *listNamespace
+	for _, a := range sp.Eps {
+		ep := &c19Endpoint{name: a, addr: w.real[a], auth: &switchAuth{}}
 		if ep.sess, err = session.NewSession(w.addrD); err != nil {
 			return nil, err
 		}
@@ -107,22 +309,64 @@ func newC19World(addrs []string, gors []string) (*c19World, error) {
 		if err != nil {
 			return nil, err
 		}
-		ep.lis = &countingListener{Listener: l}
-		ns, err := services.Namespace(ep.sess, []string{ep.addr})
+		ep.lis = &countingListener{Listener: l, name: a, w: w}
+		rns, err := services.Namespace(ep.sess, []string{ep.addr})
 		if err != nil {
 			return nil, err
 		}
-		if ep.srv, err = bus.StandAloneServer(ep.lis, bus.Yes{}, ns); err != nil {
+		dirp, err := services.ServiceDirectory(ep.sess)
+		if err != nil {
 			return nil, err
 		}
-		for _, g := range gors {
-			name := a + "." + g
-			if _, err := ep.srv.NewService(name, pong.PingPongObject(pong.PingPongImpl())); err != nil {
-				return nil, fmt.Errorf("NewService(%s): %v", name, err)
+		ns := &listNamespace{Namespace: rns, dir: dirp, w: w, ids: ids, own: map[uint32]bool{}}
+		if first == nil {
+			first = ns
+		}
+		if ep.srv, err = bus.StandAloneServer(ep.lis, ep.auth, ns); err != nil {
+			return nil, err
+		}
+		for _, kind := range sp.kinds() {
+			hosted := false
+			for _, x := range sp.Adv[kind] {
+				if x == a {
+					hosted = true
+				}
 			}
-			w.names = append(w.names, name)
+			if !hosted {
+				continue
+			}
+			for _, g := range sp.Gor {
+				name := kind + "." + g
+				if _, err := ep.srv.NewService(name, pong.PingPongObject(pong.PingPongImpl())); err != nil {
+					return nil, fmt.Errorf("NewService(%s) on %s: %v", name, a, err)
+				}
+			}
 		}
 		w.eps[a] = ep
+	}
+	// services without any live address exist in the directory only
+	for _, kind := range sp.kinds() {
+		if sp.firstUsable(kind) != "" || first == nil {
+			continue
+		}
+		hosted := false
+		for _, x := range sp.Adv[kind] {
+			if sp.live(x) {
+				hosted = true
+			}
+		}
+		if hosted {
+			continue
+		}
+		for _, g := range sp.Gor {
+			id, err := first.dir.RegisterService(w.infoFor(kind + "." + g))
+			if err == nil {
+				err = first.dir.ServiceReady(id)
+			}
+			if err != nil {
+				return nil, fmt.Errorf("register %s.%s: %v", kind, g, err)
+			}
+		}
 	}
 	return w, nil
 }
@@ -133,6 +377,30 @@ func (w *c19World) close() {
 		ep.sess.Terminate()
 	}
 	w.dir.Terminate()
+}
+
+func (w *c19World) setHold(on bool) {
+	if on {
+		atomic.StoreInt32(&w.hold, 1)
+		return
+	}
+	atomic.StoreInt32(&w.hold, 0)
+	w.heldMu.Lock()
+	for _, s := range w.heldStreams {
+		s.unhold()
+	}
+	w.heldStreams = nil
+	w.heldMu.Unlock()
+}
+
+func (w *c19World) drainAccepts() {
+	for {
+		select {
+		case <-w.acceptCh:
+		default:
+			return
+		}
+	}
 }
 
 // settle waits (bounded) until no connection of an earlier session is left
@@ -154,9 +422,9 @@ func (w *c19World) settle() map[string]int64 {
 }
 
 // waitLive waits (bounded) until the server-side live connection count of
-// every endpoint has been stable at its value for a little while; returns it.
+// every endpoint equals want; returns what it saw last.
 func (w *c19World) waitLive(want map[string]int64) map[string]int64 {
-	dl := time.Now().Add(tBound)
+	dl := time.Now().Add(c19CountBound)
 	for {
 		got := map[string]int64{}
 		ok := true
@@ -176,58 +444,110 @@ func (w *c19World) waitLive(want map[string]int64) map[string]int64 {
 // ---- schedules ----------------------------------------------------------------------
 
 type sStep struct {
-	G    string `json:"g"`
-	Act  string `json:"act"`
-	A    string `json:"a"`
-	Pc   string `json:"pc"`
-	Ret  int    `json:"ret"`
-	Conn int    `json:"conn"`
-	// no writer holds the lock after the step
-	WFree bool `json:"wfree"`
+	G     string `json:"g"`
+	Act   string `json:"act"`
+	Svc   string `json:"svc"`
+	Pc    string `json:"pc"`
+	Conn  int    `json:"conn"`
+	A     string `json:"a"`   // address dialed
+	Key   string `json:"key"` // pool key
+	Res   string `json:"res"`
+	Ret   int    `json:"ret"`
+	St    string `json:"st"` // state of the connection returned / concerned
+	Cp    bool   `json:"cp"` // the closer of the connection has been started
+	WFree bool   `json:"wfree"`
 }
 type sSched struct {
 	Steps   []sStep        `json:"steps"`
 	Open    map[string]int `json:"open"`
+	Conns   []string       `json:"conns"`
+	Pool    map[string]int `json:"pool"`
 	Crashed bool           `json:"crashed"`
 	Leaked  bool           `json:"leaked"`
+}
+
+func (x sStep) String() string {
+	switch {
+	case x.Act == "Start":
+		return fmt.Sprintf("Start(%s,%s)", x.G, x.Svc)
+	case x.G == "":
+		return fmt.Sprintf("%s(c%d)", x.Act, x.Conn)
+	}
+	return fmt.Sprintf("%s(%s)", x.Act, x.G)
+}
+
+// sig: what kind of step this is (failure budget per signature)
+func (x sStep) sig() string {
+	if x.G == "" {
+		return fmt.Sprintf("%s/owner-at=%s/cp=%v", x.Act, x.Pc, x.Cp)
+	}
+	return fmt.Sprintf("%s/%s/st=%s/cp=%v", x.Act, x.Svc, x.St, x.Cp)
 }
 
 func (s sSched) String() string {
 	var b []string
 	for _, x := range s.Steps {
-		if x.Act == "Start" {
-			b = append(b, fmt.Sprintf("Start(%s,%s)", x.G, x.A))
-		} else {
-			b = append(b, fmt.Sprintf("%s(%s)", x.Act, x.G))
-		}
+		b = append(b, x.String())
 	}
 	return strings.Join(b, " ")
 }
 
+type connRec struct {
+	id      int
+	ep      string // model address dialed
+	owner   *gorState
+	stream  *countedStream // server side
+	channel bus.Channel
+	client  net.EndPoint // client side (known once SelectEndPoint has returned)
+
+	refused, dup, lost bool
+	closerExpected     bool
+	closerSeen         int32
+	closerArrived      chan struct{}
+	arrivedOnce        sync.Once
+	closerRelease      chan struct{}
+}
+
 type gorState struct {
+	g, kind string
 	name    string // service name = identity at the gates
-	at      string // "", enter, miss, dialed, locked, done
+	at      string // "", enter, miss, dialed, locked, addhandler, done
 	arrived chan string
 	release chan struct{}
 	freed   chan struct{} // closed when the schedule is over
 	done    chan error
 	result  error
-	events  []string // hook events of this goroutine's call, in order
-	call    int
+	call    int  // identifier of the call (hook events)
+	gated   bool // the request finished inside the gated prefix
+	readAt  int  // step at which the read section (RLock, lookup, RUnlock) really ran
+	conn    *connRec
 }
 
 // sessionGates routes the gates of ONE session to its goroutines.
 type sessionGates struct {
-	mu   sync.Mutex
-	sess interface{}
-	gs   map[string]*gorState // by service name
-	free bool                 // everything released: gates are transparent
+	mu     sync.Mutex
+	sess   interface{}
+	gs     map[string]*gorState // by service name
+	byEP   map[interface{}]*gorState
+	byChan map[interface{}]*connRec
+	free   bool // everything released: gates are transparent
+	freed  chan struct{}
+	stray  int // closers of connections the harness never saw connected
 }
 
 var (
 	gatesMu  sync.Mutex
 	gatesFor = map[interface{}]*sessionGates{}
+	epGates  = map[interface{}]*sessionGates{} // client end points being watched -> their session
 )
+
+func (sg *sessionGates) park(g *gorState, pt string) {
+	g.arrived <- pt
+	select {
+	case <-g.release:
+	case <-g.freed:
+	}
+}
 
 func installSessionGates() {
 	for _, pt := range []string{"enter", "miss", "dialed", "locked"} {
@@ -253,167 +573,477 @@ func installSessionGates() {
 			if g == nil || free {
 				return
 			}
-			g.arrived <- pt
-			select {
-			case <-g.release:
-			case <-g.freed:
-			}
+			sg.park(g, pt)
 		})
 	}
+	// endpoint.AddHandler is only called by Session.client: between the insert and the registration of the closer
+	vhook.SetGate("endpoint.AddHandler", func(kv ...interface{}) {
+		if len(kv) < 1 {
+			return
+		}
+		gatesMu.Lock()
+		sg := epGates[kv[0]]
+		gatesMu.Unlock()
+		if sg == nil {
+			return
+		}
+		sg.mu.Lock()
+		g := sg.byEP[kv[0]]
+		free := sg.free
+		sg.mu.Unlock()
+		if g == nil || free {
+			return
+		}
+		sg.park(g, "addhandler")
+	})
+	// the closer of a pooled connection, before it takes the lock
+	vhook.SetGate("session.closer", func(kv ...interface{}) {
+		if len(kv) < 3 {
+			return
+		}
+		gatesMu.Lock()
+		sg := gatesFor[kv[0]]
+		gatesMu.Unlock()
+		if sg == nil {
+			return
+		}
+		sg.mu.Lock()
+		rec := sg.byChan[kv[2]]
+		free := sg.free
+		if rec == nil {
+			sg.stray++
+		}
+		sg.mu.Unlock()
+		if rec == nil {
+			return
+		}
+		atomic.AddInt32(&rec.closerSeen, 1)
+		rec.arrivedOnce.Do(func() { close(rec.closerArrived) })
+		if free {
+			return
+		}
+		select {
+		case <-rec.closerRelease:
+		case <-sg.freed:
+		}
+	})
 }
 
 type evLog struct {
 	mu  sync.Mutex
-	evs []map[string]interface{}
+	evs []vhook.Event
+}
+
+func (l *evLog) snapshot(from int) []vhook.Event {
+	l.mu.Lock()
+	defer l.mu.Unlock()
+	if from > len(l.evs) {
+		from = len(l.evs)
+	}
+	return append([]vhook.Event(nil), l.evs[from:]...)
+}
+
+func (l *evLog) length() int {
+	l.mu.Lock()
+	defer l.mu.Unlock()
+	return len(l.evs)
+}
+
+func kvOf(e vhook.Event, key string) interface{} {
+	for i := 0; i+1 < len(e.KV); i += 2 {
+		if k, ok := e.KV[i].(string); ok && k == key {
+			return e.KV[i+1]
+		}
+	}
+	return nil
+}
+
+// waitEvent waits (bounded) for an event satisfying ok at or after position from.
+func (l *evLog) waitEvent(from int, bound time.Duration, ok func(vhook.Event) bool) bool {
+	dl := time.Now().Add(bound)
+	for {
+		for _, e := range l.snapshot(from) {
+			if ok(e) {
+				return true
+			}
+		}
+		if time.Now().After(dl) {
+			return false
+		}
+		time.Sleep(200 * time.Microsecond)
+	}
+}
+
+type replayer struct {
+	w       *c19World
+	sc      sSched
+	sut     bus.Session
+	sutID   int
+	sg      *sessionGates
+	log     *evLog
+	gs      map[string]*gorState
+	all     []*gorState
+	conns   map[int]*connRec
+	proxies map[*gorState]bus.Proxy
+	pmu     sync.Mutex
+	losses  int
+	failSig string
+}
+
+func (r *replayer) sessEvents(from int) []vhook.Event {
+	var l []vhook.Event
+	for _, e := range r.log.snapshot(from) {
+		if e.Comp == "session" && e.Inst == r.sutID {
+			l = append(l, e)
+		}
+	}
+	return l
+}
+
+// callOf: the identifier of the running call of g (its latest "request" event)
+func (r *replayer) callOf(g *gorState) int {
+	if g.call != 0 {
+		return g.call
+	}
+	id := 0
+	for _, e := range r.sessEvents(0) {
+		if e.Ev == "request" && kvOf(e, "name") == g.name {
+			id, _ = kvOf(e, "call").(int)
+		}
+	}
+	return id
+}
+
+func (r *replayer) lastEvent(g *gorState, evs ...string) (vhook.Event, bool) {
+	call := r.callOf(g)
+	var found vhook.Event
+	ok := false
+	for _, e := range r.sessEvents(0) {
+		if c, _ := kvOf(e, "call").(int); c != call {
+			continue
+		}
+		for _, x := range evs {
+			if e.Ev == x {
+				found, ok = e, true
+			}
+		}
+	}
+	return found, ok
+}
+
+func (r *replayer) waitArr(g *gorState, step sStep, want ...string) *seqFail {
+	has := func(p string) bool {
+		for _, x := range want {
+			if x == p {
+				return true
+			}
+		}
+		return false
+	}
+	select {
+	case pt := <-g.arrived:
+		g.at = pt
+		if has(pt) {
+			return nil
+		}
+		return &seqFail{"session/replay/unexpected-point", fmt.Sprintf("%s: goroutine arrived at %q, the specification expects %v", step, pt, want)}
+	case err := <-g.done:
+		g.at, g.result, g.gated = "done", err, true
+		if has("done") {
+			return nil
+		}
+		return &seqFail{"session/replay/unexpected-return", fmt.Sprintf("%s: Proxy(%s) returned (%v), the specification expects the goroutine at %v", step, g.name, err, want)}
+	case <-time.After(tBound):
+		return &seqFail{"session/replay/blocked", fmt.Sprintf("%s: the goroutine neither reached %v nor returned within %v (last point %q)", step, want, tBound, g.at)}
+	}
+}
+
+// outcome compares the result of a finished Proxy() with the specification's
+func (r *replayer) outcome(g *gorState, st sStep) *seqFail {
+	wantOK := st.Res == "ok" && st.St == "open" // Proxy() = client() + a call through the client
+	if st.Act == "LookupHit" && st.Res == "ok" && st.St == "lost" {
+		// the read section ran as a whole at step readAt: a connection cut after that was still open
+		for _, x := range r.sc.Steps[g.readAt:] {
+			if x.Act == "Lose" && x.Conn == st.Ret {
+				wantOK = true
+			}
+		}
+	}
+	if wantOK && g.result != nil {
+		return &seqFail{"session/replay/proxy-failed", fmt.Sprintf("%s: Proxy(%s) failed: %v (specification: %s, client on an open connection)", st, g.name, g.result, st.Res)}
+	}
+	if !wantOK && g.result == nil {
+		if st.Res == "ok" {
+			return &seqFail{"session/replay/lost-connection-usable", fmt.Sprintf("%s: Proxy(%s) succeeded on a connection the harness has cut", st, g.name)}
+		}
+		return &seqFail{"session/replay/request-should-fail", fmt.Sprintf("%s: Proxy(%s) succeeded, the specification returns an error (%s)", st, g.name, st.Res)}
+	}
+	return nil
+}
+
+func (r *replayer) step(i int, st sStep) *seqFail {
+	w := r.w
+	g := r.gs[st.G]
+	switch st.Act {
+	case "Start":
+		g = &gorState{g: st.G, kind: st.Svc, name: st.Svc + "." + st.G, arrived: make(chan string, 8), release: make(chan struct{}),
+			freed: make(chan struct{}), done: make(chan error, 1)}
+		r.gs[st.G] = g
+		r.all = append(r.all, g)
+		r.sg.mu.Lock()
+		r.sg.gs[g.name] = g
+		r.sg.mu.Unlock()
+		go func(g *gorState) {
+			p, err := r.sut.Proxy(g.name, 1)
+			if err == nil {
+				r.pmu.Lock()
+				r.proxies[g] = p
+				r.pmu.Unlock()
+			}
+			g.done <- err
+		}(g)
+		f := r.waitArr(g, st, "enter")
+		g.call = r.callOf(g)
+		return f
+	case "RLockEnter":
+		g.release <- struct{}{}
+		if st.Pc == "locked_r" {
+			// the read section (RLock, lookup, RUnlock) runs as a whole
+			g.readAt = i
+			return r.waitArr(g, st, "miss", "done")
+		}
+	case "RLockGranted":
+		g.readAt = i
+		return r.waitArr(g, st, "miss", "done")
+	case "LookupHit":
+		if g.at != "done" {
+			return &seqFail{"session/replay/lookup-should-hit", fmt.Sprintf("%s: the pool holds a client for an address of %s but the lookup missed (goroutine at %q)", st.G, st.Svc, g.at)}
+		}
+		return r.outcome(g, st)
+	case "LookupMiss":
+		if g.at != "miss" {
+			return &seqFail{"session/replay/lookup-should-miss", fmt.Sprintf("%s: the pool holds nothing for %s but the goroutine is at %q (result %v)", st.G, st.Svc, g.at, g.result)}
+		}
+	case "SelectDial":
+		w.drainAccepts()
+		g.release <- struct{}{}
+		select {
+		case n := <-w.acceptCh:
+			rec := &connRec{id: st.Conn, ep: n.ep, owner: g, stream: n.s, closerArrived: make(chan struct{}), closerRelease: make(chan struct{})}
+			r.conns[st.Conn] = rec
+			g.conn = rec
+			if n.ep != st.A {
+				return &seqFail{"session/replay/connected-address", fmt.Sprintf("%s: connected to %s, SelectEndPoint of %v must connect to %s", st, n.ep, w.spec.Adv[st.Svc], st.A)}
+			}
+		case pt := <-g.arrived:
+			g.at = pt
+			return &seqFail{"session/replay/unexpected-point", fmt.Sprintf("%s: goroutine arrived at %q without a connection to %s being accepted", st, pt, st.A)}
+		case err := <-g.done:
+			g.at, g.result, g.gated = "done", err, true
+			return &seqFail{"session/replay/dial-failed", fmt.Sprintf("%s: Proxy(%s) returned (%v); the service advertises %v and %s can be dialed", st, g.name, err, w.spec.Adv[st.Svc], st.A)}
+		case <-time.After(tBound):
+			return &seqFail{"session/replay/blocked", fmt.Sprintf("%s: no connection within %v", st, tBound)}
+		}
+	case "SelectFail":
+		g.release <- struct{}{}
+		if f := r.waitArr(g, st, "done"); f != nil {
+			return f
+		}
+		return r.outcome(g, st)
+	case "AuthOK":
+		g.conn.stream.unhold()
+		if f := r.waitArr(g, st, "dialed"); f != nil {
+			return f
+		}
+		if e, ok := r.lastEvent(g, "connected"); ok {
+			if ch, ok := kvOf(e, "channel").(bus.Channel); ok && ch != nil {
+				g.conn.channel = ch
+				g.conn.client = ch.EndPoint()
+				r.sg.mu.Lock()
+				r.sg.byChan[ch] = g.conn
+				r.sg.byEP[g.conn.client] = g
+				r.sg.mu.Unlock()
+				gatesMu.Lock()
+				epGates[g.conn.client] = r.sg
+				gatesMu.Unlock()
+			}
+			if a, _ := kvOf(e, "addr").(string); a != w.real[st.A] {
+				return &seqFail{"session/replay/connected-address", fmt.Sprintf("%s: SelectEndPoint reports %s (%q), the connection was made to %s", st, w.model[a], a, st.A)}
+			}
+		} else {
+			return &seqFail{"session/replay/no-connected-event", fmt.Sprintf("%s: no connected event", st)}
+		}
+	case "AuthRefused":
+		ep := w.eps[g.conn.ep]
+		atomic.StoreInt32(&ep.auth.refuse, 1)
+		g.conn.refused = true
+		g.conn.stream.unhold()
+		f := r.waitArr(g, st, "done")
+		atomic.StoreInt32(&ep.auth.refuse, 0)
+		if f != nil {
+			return f
+		}
+		return r.outcome(g, st)
+	case "AuthLost":
+		if f := r.waitArr(g, st, "done"); f != nil {
+			return f
+		}
+		return r.outcome(g, st)
+	case "LockWait":
+		// no goroutine is ever parked inside the read section and (Replayable) no writer
+		// holds the lock: Lock() succeeds at once; the goroutine parks at "locked"
+		g.release <- struct{}{}
+		if st.WFree {
+			return r.waitArr(g, st, "locked")
+		} // else: blocked inside Lock() behind the parked writer; last step of a schedule (Replayable)
+	case "Lock":
+		if g.at != "locked" {
+			return &seqFail{"session/replay/unexpected-point", fmt.Sprintf("%s: goroutine at %q", st, g.at)}
+		}
+	case "Insert", "Dup":
+		want := strings.ToLower(st.Act)
+		g.release <- struct{}{}
+		var f *seqFail
+		if st.Act == "Insert" {
+			f = r.waitArr(g, st, "addhandler")
+		} else {
+			g.conn.dup = true
+			f = r.waitArr(g, st, "done")
+		}
+		e, ok := r.lastEvent(g, "insert", "dup")
+		if ok && e.Ev != want || !ok && f == nil {
+			return &seqFail{"session/replay/recheck-" + want + "-expected", fmt.Sprintf("%s: under the write lock the code did %q, the specification %q", st, e.Ev, want)}
+		}
+		if f != nil {
+			return f
+		}
+		if a, _ := kvOf(e, "addr").(string); a != w.real[st.Key] {
+			return &seqFail{"session/replay/pool-key", fmt.Sprintf("%s: the pool is accessed under %s (%q); the connection was made to %s", st, w.model[a], a, st.Key)}
+		}
+		if st.Act == "Dup" {
+			return r.outcome(g, st)
+		}
+	case "AddHandler":
+		g.release <- struct{}{}
+		if f := r.waitArr(g, st, "done"); f != nil {
+			return f
+		}
+		if f := r.outcome(g, st); f != nil {
+			return f
+		}
+		if st.Cp {
+			g.conn.closerExpected = true
+			select {
+			case <-g.conn.closerArrived:
+			case <-time.After(c19CloserBound):
+				return &seqFail{"session/replay/dead-client-stays-in-pool", fmt.Sprintf("%s: the connection to %s was lost before the closer was registered (AddHandler on a closed end point): the closer is never started, the pool keeps the dead client for ever", st, st.A)}
+			}
+		}
+	case "Lose":
+		rec := r.conns[st.Conn]
+		if rec == nil {
+			hlib.Fatal("Lose(c%d): connection unknown", st.Conn)
+		}
+		from := r.log.length()
+		rec.lost = true
+		r.losses++
+		rec.stream.Close() // (a held stream stays held: nothing the client has sent is ever read)
+		if rec.client != nil {
+			id := vhook.ID(rec.client)
+			if !r.log.waitEvent(from, tBound, func(e vhook.Event) bool { return e.Comp == "endpoint" && e.Inst == id && e.Ev == "shutdown" }) {
+				return &seqFail{"session/replay/loss-not-noticed", fmt.Sprintf("%s: the client end point does not notice that its connection is gone", st)}
+			}
+		}
+		if st.Cp {
+			rec.closerExpected = true
+			select {
+			case <-rec.closerArrived:
+			case <-time.After(c19CloserBound):
+				return &seqFail{"session/replay/closer-not-started", fmt.Sprintf("%s: the pooled connection to %s is lost, its closer does not run", st, st.A)}
+			}
+		}
+	case "Closer":
+		rec := r.conns[st.Conn]
+		if rec == nil {
+			hlib.Fatal("Closer(c%d): connection unknown", st.Conn)
+		}
+		from := r.log.length()
+		close(rec.closerRelease)
+		key := w.real[st.Key]
+		if !r.log.waitEvent(from, tBound, func(e vhook.Event) bool {
+			return e.Comp == "session" && e.Inst == r.sutID && e.Ev == "closed" && kvOf(e, "addr") == key
+		}) {
+			return &seqFail{"session/replay/closer-blocked", fmt.Sprintf("%s: the closer does not delete the entry of %s", st, st.Key)}
+		}
+	default:
+		hlib.Fatal("unknown schedule action %q", st.Act)
+	}
+	return nil
 }
 
 // replaySchedule forces one schedule; returns a failure or nil.
-func replaySchedule(w *c19World, sc sSched) *seqFail {
+func replaySchedule(w *c19World, sc sSched) (*seqFail, string) {
 	base := w.settle()
+	for _, ep := range w.eps {
+		atomic.StoreInt32(&ep.auth.refuse, 0)
+	}
 	sut, err := session.NewSession(w.addrD)
 	if err != nil {
 		hlib.Fatal("session.NewSession: %v", err)
 	}
 	defer sut.Terminate()
-	sg := &sessionGates{sess: sut, gs: map[string]*gorState{}}
+	sg := &sessionGates{sess: sut, gs: map[string]*gorState{}, byEP: map[interface{}]*gorState{}, byChan: map[interface{}]*connRec{}, freed: make(chan struct{})}
 	gatesMu.Lock()
 	gatesFor[sut] = sg
 	gatesMu.Unlock()
 	defer func() {
 		gatesMu.Lock()
 		delete(gatesFor, sut)
+		for ep, x := range epGates {
+			if x == sg {
+				delete(epGates, ep)
+			}
+		}
 		gatesMu.Unlock()
 	}()
-	// hook events of this session
+	// hook events of this session and of the end points
 	log := &evLog{}
 	sutID := vhook.ID(sut)
 	vhook.SetSink(func(e vhook.Event) {
-		if e.Comp == "session" && e.Inst == sutID {
+		if (e.Comp == "session" && e.Inst == sutID) || (e.Comp == "endpoint" && e.Ev == "shutdown") {
 			log.mu.Lock()
-			log.evs = append(log.evs, e.Map())
+			log.evs = append(log.evs, e)
 			log.mu.Unlock()
 		}
 	})
 	defer vhook.SetSink(nil)
-
-	gs := map[string]*gorState{} // current request of each model goroutine
-	var all []*gorState          // every request started
-	proxies := map[string]bus.Proxy{}
-	var pmu sync.Mutex
-	waitArr := func(g *gorState, step sStep, want ...string) (string, *seqFail) {
-		select {
-		case pt := <-g.arrived:
-			g.at = pt
-			for _, x := range want {
-				if x == pt {
-					return pt, nil
-				}
-			}
-			return pt, &seqFail{"session/replay/unexpected-point", fmt.Sprintf("%s(%s): goroutine arrived at %q, the specification expects %v", step.Act, step.G, pt, want)}
-		case err := <-g.done:
-			g.at, g.result = "done", err
-			for _, x := range want {
-				if x == "done" {
-					return "done", nil
-				}
-			}
-			return "done", &seqFail{"session/replay/unexpected-return", fmt.Sprintf("%s(%s): Proxy() returned (%v), the specification expects the goroutine at %v", step.Act, step.G, err, want)}
-		case <-time.After(tBound):
-			return "", &seqFail{"session/replay/blocked", fmt.Sprintf("%s(%s): the goroutine neither reached %v nor returned within %v (last point %q)", step.Act, step.G, want, tBound, g.at)}
-		}
-	}
+	r := &replayer{w: w, sc: sc, sut: sut, sutID: sutID, sg: sg, log: log, gs: map[string]*gorState{}, conns: map[int]*connRec{}, proxies: map[*gorState]bus.Proxy{}}
+	w.setHold(true)
 	var fail *seqFail
 	for i, st := range sc.Steps {
-		g := gs[st.G]
-		switch st.Act {
-		case "Start":
-			g = &gorState{name: st.A + "." + st.G, arrived: make(chan string, 8), release: make(chan struct{}),
-				freed: make(chan struct{}), done: make(chan error, 1)}
-			gs[st.G] = g
-			all = append(all, g)
-			sg.mu.Lock()
-			sg.gs[g.name] = g
-			sg.mu.Unlock()
-			go func(g *gorState) {
-				p, err := sut.Proxy(g.name, 1)
-				if err == nil {
-					pmu.Lock()
-					proxies[g.name] = p
-					pmu.Unlock()
-				}
-				g.done <- err
-			}(g)
-			_, fail = waitArr(g, st, "enter")
-		case "RLockEnter":
-			g.release <- struct{}{}
-			if st.Pc == "locked_r" {
-				// the read section (RLock, lookup, RUnlock) runs as a whole
-				_, fail = waitArr(g, st, "miss", "done")
-			}
-		case "RLockGranted":
-			_, fail = waitArr(g, st, "miss", "done")
-		case "LookupHit":
-			if g.at != "done" {
-				fail = &seqFail{"session/replay/lookup-should-hit", fmt.Sprintf("%s: the pool holds a client for %s but the lookup missed (goroutine at %q)", st.G, st.A, g.at)}
-			} else if g.result != nil {
-				fail = &seqFail{"session/replay/proxy-failed", fmt.Sprintf("%s: Proxy(%s) failed: %v", st.G, g.name, g.result)}
-			}
-		case "LookupMiss":
-			if g.at != "miss" {
-				fail = &seqFail{"session/replay/lookup-should-miss", fmt.Sprintf("%s: the pool holds nothing for %s but the goroutine is at %q (result %v)", st.G, st.A, g.at, g.result)}
-			}
-		case "Dial":
-			g.release <- struct{}{}
-			_, fail = waitArr(g, st, "dialed")
-		case "LockWait":
-			// no goroutine is ever parked inside the read section and (Replayable) no writer
-			// holds the lock: Lock() succeeds at once; the goroutine parks at "locked"
-			g.release <- struct{}{}
-			if st.WFree {
-				_, fail = waitArr(g, st, "locked")
-			} // else: blocked inside Lock() behind the parked writer; last step of a schedule (Replayable)
-		case "Lock":
-			if g.at != "locked" {
-				fail = &seqFail{"session/replay/unexpected-point", fmt.Sprintf("Lock(%s): goroutine at %q", st.G, g.at)}
-			}
-		case "Insert", "Dup":
-			g.release <- struct{}{}
-			_, fail = waitArr(g, st, "done")
-			if fail == nil && g.result != nil {
-				fail = &seqFail{"session/replay/proxy-failed", fmt.Sprintf("%s: Proxy(%s) failed: %v", st.G, g.name, g.result)}
-			}
-			if fail == nil {
-				want := strings.ToLower(st.Act)
-				// the event of this call emitted under the write lock
-				found := ""
-				log.mu.Lock()
-				for _, e := range log.evs {
-					if (e["ev"] == "insert" || e["ev"] == "dup") && fmt.Sprint(e["addr"]) == w.eps[st.A].addr {
-						found = fmt.Sprint(e["ev"]) // the last one is this goroutine's (it just ran alone under the lock)
-					}
-				}
-				log.mu.Unlock()
-				if found != want {
-					fail = &seqFail{"session/replay/recheck-" + want + "-expected", fmt.Sprintf("%s: under the write lock the code did %q, the specification %q", st.G, found, want)}
-				}
-			}
-		default:
-			hlib.Fatal("unknown schedule action %q", st.Act)
-		}
-		if fail != nil {
+		if fail = r.step(i, st); fail != nil {
 			fail.detail = fmt.Sprintf("step %d: %s", i+1, fail.detail)
+			r.failSig = st.sig()
 			break
 		}
 	}
-	// let everybody finish: the gates become transparent, parked goroutines are freed
+	// a lost connection the pool may still hand out: requests that finish later may legitimately get it
+	lossOutstanding := false
+	for _, c := range r.conns {
+		if c.lost {
+			lossOutstanding = true
+		}
+	}
+	// let everybody finish: the gates become transparent, parked goroutines and closers are freed
+	w.setHold(false)
 	sg.mu.Lock()
 	sg.free = true
 	sg.mu.Unlock()
-	for _, g := range all {
+	close(sg.freed)
+	for _, g := range r.all {
 		close(g.freed)
 	}
-	for _, g := range all {
-		name := g.name
+	for _, g := range r.all {
 		if g.at == "done" {
 			continue
 		}
@@ -427,40 +1057,158 @@ func replaySchedule(w *c19World, sc sSched) *seqFail {
 				break loop
 			case <-dl:
 				// a goroutine is stuck inside qiloop: the process state is not reusable
-				panic(fmt.Sprintf("c19: request never returns: %s Proxy(%s), %v after every gate was opened", name, g.name, tBound))
+				panic(fmt.Sprintf("c19: request never returns: Proxy(%s), %v after every gate was opened", g.name, tBound))
 			}
 		}
 	}
 	if fail != nil {
-		return fail
+		return fail, r.failSig
 	}
-	// quiescence: every request succeeded, every proxy works, one live connection per endpoint used
-	used := map[string]int64{}
-	for _, g := range all {
-		gname := g.name
-		if g.result != nil {
-			return &seqFail{"session/replay/proxy-failed", fmt.Sprintf("%s: Proxy(%s) failed: %v", gname, g.name, g.result)}
+	// quiescence: the outcome of every request, every proxy works
+	kinds := map[string]string{} // kind -> a service name of it
+	for _, g := range r.all {
+		kinds[g.kind] = g.name
+		reachable := w.spec.firstUsable(g.kind) != ""
+		if g.gated {
+			if g.result != nil {
+				continue
+			}
+		} else {
+			if reachable && g.result != nil && !lossOutstanding {
+				return &seqFail{"session/replay/proxy-failed", fmt.Sprintf("%s: Proxy(%s) failed: %v; the service advertises %v", g.g, g.name, g.result, w.spec.Adv[g.kind])}, "free"
+			}
+			if !reachable && g.result == nil {
+				return &seqFail{"session/replay/request-should-fail", fmt.Sprintf("%s: Proxy(%s) succeeded; the service advertises %v", g.g, g.name, w.spec.Adv[g.kind])}, "free"
+			}
+			if g.result != nil {
+				continue
+			}
 		}
-		pmu.Lock()
-		p := proxies[g.name]
-		pmu.Unlock()
-		r, err := pong.MakePingPong(sut, p).Hello("x")
-		if err != nil || r != "Hello, World!" {
-			return &seqFail{"session/replay/proxy-unusable", fmt.Sprintf("%s: Hello() through the proxy of %s: %q, %v", gname, g.name, r, err)}
+		r.pmu.Lock()
+		p := r.proxies[g]
+		r.pmu.Unlock()
+		rep, err := pong.MakePingPong(sut, p).Hello("x")
+		if (err != nil || rep != "Hello, World!") && !lossOutstanding {
+			return &seqFail{"session/replay/proxy-unusable", fmt.Sprintf("%s: Hello() through the proxy of %s: %q, %v", g.g, g.name, rep, err)}, "free"
 		}
-		used[strings.SplitN(g.name, ".", 2)[0]] = 1
+	}
+	// a connection the harness has cut and the session has pooled: its closer must have been started (at the
+	// loss, or when the handler was added to the dead end point) and must delete the entry
+	for _, st := range sc.Steps {
+		if st.Act != "Lose" {
+			continue
+		}
+		c := r.conns[st.Conn]
+		if !c.closerExpected {
+			if e, ok := r.lastEvent(c.owner, "insert", "dup"); !ok || e.Ev != "insert" || c.refused {
+				continue // never pooled
+			}
+			select {
+			case <-c.closerArrived:
+			case <-time.After(c19CloserBound):
+				return &seqFail{"session/replay/dead-client-stays-in-pool", fmt.Sprintf("the connection c%d to %s was lost before its closer was registered (AddHandler on a closed end point): the closer is never started, the pool keeps the dead client for ever", c.id, c.ep)}, st.sig()
+			}
+		}
+		key := w.real[c.ep]
+		if !r.log.waitEvent(0, tBound, func(e vhook.Event) bool {
+			return e.Comp == "session" && e.Inst == sutID && e.Ev == "closed" && kvOf(e, "addr") == key
+		}) {
+			return &seqFail{"session/replay/closer-blocked", fmt.Sprintf("the closer of the lost connection c%d does not delete the entry of %s", c.id, c.ep)}, st.sig()
+		}
+	}
+	// a later request for every service finds a working, shared client
+	okKind := map[string]bool{}
+	for _, g := range r.all {
+		if g.result == nil {
+			okKind[g.kind] = true
+		}
+	}
+	knames := make([]string, 0, len(kinds))
+	for k := range kinds {
+		knames = append(knames, k)
+	}
+	sort.Strings(knames)
+	for _, k := range knames {
+		if w.spec.firstUsable(k) == "" {
+			continue
+		}
+		from := log.length()
+		p, err := sut.Proxy(kinds[k], 1)
+		var rep string
+		if err == nil {
+			rep, err = pong.MakePingPong(sut, p).Hello("x")
+		}
+		if err != nil || rep != "Hello, World!" {
+			return &seqFail{"session/replay/later-request-fails", fmt.Sprintf("after every request has returned, Proxy(%s)+Hello: %q, %v (the service advertises %v)", kinds[k], rep, err, w.spec.Adv[k])}, "epilogue"
+		}
+		if r.losses == 0 && okKind[k] {
+			for _, e := range r.sessEvents(from) {
+				if e.Ev == "dialed" {
+					return &seqFail{"session/replay/later-request-dials-again", fmt.Sprintf("after every request has returned, Proxy(%s) opens a new connection to %v: the pool has lost the client the earlier proxies use", kinds[k], w.model[fmt.Sprint(kvOf(e, "addr"))])}, "epilogue"
+				}
+			}
+		}
+	}
+	// the pool as the insert / closed events describe it
+	pool := map[string]bool{}
+	for _, e := range r.sessEvents(0) {
+		a, _ := kvOf(e, "addr").(string)
+		switch e.Ev {
+		case "insert":
+			pool[a] = true
+		case "closed":
+			delete(pool, a)
+		}
+	}
+	for a := range pool {
+		if a != w.addrD && w.eps[w.model[a]] == nil {
+			return &seqFail{"session/replay/pool-key", fmt.Sprintf("the pool holds an entry under %s (%q), an address no connection was made to", w.model[a], a)}, "quiescence"
+		}
+	}
+	// connections of the gated part the specification has closed: the server must have seen them go
+	ids := make([]int, 0, len(r.conns))
+	for id := range r.conns {
+		ids = append(ids, id)
+	}
+	sort.Ints(ids)
+	for _, id := range ids {
+		c := r.conns[id]
+		if id > len(sc.Conns) || sc.Conns[id-1] != "closed" {
+			continue
+		}
+		dl := time.Now().Add(c19CountBound)
+		for !c.stream.isClosed() && time.Now().Before(dl) {
+			time.Sleep(time.Millisecond)
+		}
+		if !c.stream.isClosed() {
+			what, cl := "duplicate", "duplicate-connection-left-open"
+			if c.refused {
+				what, cl = "refused", "refused-connection-left-open"
+			}
+			return &seqFail{"session/replay/" + cl, fmt.Sprintf("the %s connection c%d to %s is still open on the server side (accepted minus closed = %d)", what, id, c.ep, w.eps[c.ep].lis.live()-base[c.ep])}, "quiescence"
+		}
 	}
 	want := map[string]int64{}
-	for a := range w.eps {
-		want[a] = base[a] + used[a]
-	}
-	got := w.waitLive(want)
-	for a := range w.eps {
-		if got[a] != want[a] {
-			return &seqFail{"session/replay/connections-per-endpoint", fmt.Sprintf("endpoint %s: %d live connection(s) from the session at quiescence (server side), expected %d (specification: open=%v)", a, got[a]-base[a], used[a], sc.Open)}
+	for a, ep := range w.eps {
+		want[a] = base[a]
+		if pool[ep.addr] {
+			want[a]++
 		}
 	}
-	return nil
+	got := w.waitLive(want)
+	for _, a := range w.spec.Eps {
+		if got[a] != want[a] {
+			return &seqFail{"session/replay/connections-per-endpoint", fmt.Sprintf("endpoint %s: %d live connection(s) from the session at quiescence (server side), the pool holds %d", a, got[a]-base[a], want[a]-base[a])}, "quiescence"
+		}
+	}
+	// closers the specification never starts (a connection that was never pooled)
+	for _, id := range ids {
+		c := r.conns[id]
+		if atomic.LoadInt32(&c.closerSeen) > 0 && !c.closerExpected && !c.lost && c.dup {
+			return &seqFail{"session/replay/closer-of-duplicate-runs", fmt.Sprintf("the closer of the duplicate connection c%d to %s was started: it deletes the pool entry of the connection everybody shares", id, c.ep)}, "quiescence"
+		}
+	}
+	return nil, ""
 }
 
 func loadSchedules(path string) []sSched {
@@ -475,19 +1223,94 @@ func loadSchedules(path string) []sSched {
 	return l
 }
 
+// superviseC19 runs `workers` supervised children; child k handles the cases i = k (mod workers) of [0,total)
+// from `start` on.  A crash at case i is reported as <prefix>/<crash class> and the child restarted behind it.
+// Failure budget: see the constants.
+func superviseC19(res *hlib.Result, prefix string, total, workers int, args func(k, start int) []string,
+	timeout time.Duration, tag string) map[string]interface{} {
+	var mu sync.Mutex
+	extra := map[string]interface{}{}
+	fails, crashes := 0, 0
+	var wg sync.WaitGroup
+	for wk := 0; wk < workers; wk++ {
+		wg.Add(1)
+		go func(wk int) {
+			defer wg.Done()
+			out := filepath.Join(scratchDir(), fmt.Sprintf("child-%s-%d-%d.ndjson", tag, os.Getpid(), wk))
+			defer os.Remove(out)
+			start := 0
+			for start < total {
+				mu.Lock()
+				stop := fails >= c19FailsTotal || crashes >= c19MaxCrashes
+				if stop {
+					extra["budget_exhausted"] = true
+				}
+				mu.Unlock()
+				if stop {
+					break
+				}
+				local := &hlib.Result{}
+				cr := runChild(local, args(wk, start), out, timeout)
+				mu.Lock()
+				res.Evaluations += local.Evaluations
+				res.Distinct += local.Distinct
+				for _, f := range local.Failures {
+					res.Fail(f.Class, f.Detail, f.Case)
+				}
+				for c, n := range local.FailCount {
+					fails += n
+					if n > hlib.MaxFailuresPerClass {
+						res.FailCount[c] += n - hlib.MaxFailuresPerClass
+					}
+				}
+				for _, s := range local.Samples {
+					res.Sample(s)
+				}
+				for k, v := range cr.extra {
+					if f, ok := v.(float64); ok {
+						if g, ok := extra[k].(float64); ok {
+							extra[k] = f + g
+							continue
+						}
+					}
+					extra[k] = v
+				}
+				mu.Unlock()
+				if cr.ended {
+					break
+				}
+				class, detail := crashClass(cr)
+				if cr.lastCase < 0 {
+					hlib.Fatal("child %v died before its first case: %s: %s", args(wk, start), class, tail(cr.stderr, 3000))
+				}
+				mu.Lock()
+				res.Fail(prefix+"/"+class, detail, cr.lastDesc)
+				res.Evaluations++
+				crashes++
+				fails++
+				mu.Unlock()
+				start = cr.lastCase + 1
+			}
+		}(wk)
+	}
+	wg.Wait()
+	extra["child_crashes"] = crashes
+	return extra
+}
+
 func cmdC19Replay(args []string) {
-	if len(args) < 1 {
-		hlib.Fatal("c19replay <schedules.ndjson> [workers]")
+	if len(args) < 2 {
+		hlib.Fatal("c19replay <world.json> <schedules.ndjson> [workers]")
 	}
 	workers := 6
-	if len(args) > 1 {
-		workers, _ = strconv.Atoi(args[1])
+	if len(args) > 2 {
+		workers, _ = strconv.Atoi(args[2])
 	}
-	n := countLines(args[0])
+	n := countLines(args[1])
 	res := &hlib.Result{FailCount: map[string]int{}}
-	extra := superviseChunks(res, "session/replay", n, 1000, workers, func(a, b int) []string {
-		return []string{"c19replay-child", args[0], strconv.Itoa(a), strconv.Itoa(b)}
-	}, 10*time.Minute, "c19replay")
+	extra := superviseC19(res, "session/replay", n, workers, func(k, start int) []string {
+		return []string{"c19replay-child", args[0], args[1], strconv.Itoa(k), strconv.Itoa(workers), strconv.Itoa(start)}
+	}, 3*time.Minute+time.Duration(n/workers)*40*time.Millisecond, "c19replay") // a share normally takes 5 ms per schedule
 	for k, v := range extra {
 		res.SetExtra(k, v)
 	}
@@ -495,61 +1318,59 @@ func cmdC19Replay(args []string) {
 	res.Emit()
 }
 
-func worldFor(scheds []sSched) ([]string, []string) {
-	as, gs := map[string]bool{}, map[string]bool{}
-	for _, s := range scheds {
-		for _, st := range s.Steps {
-			as[st.A] = true
-			gs[st.G] = true
-		}
-	}
-	var al, gl []string
-	for a := range as {
-		al = append(al, a)
-	}
-	for g := range gs {
-		gl = append(gl, g)
-	}
-	sort.Strings(al)
-	sort.Strings(gl)
-	return al, gl
-}
-
 func cmdC19ReplayChild(args []string) {
 	out := openChildOut()
-	scheds := loadSchedules(args[0])
-	a, _ := strconv.Atoi(args[1])
-	b, _ := strconv.Atoi(args[2])
+	sp := loadC19Spec(args[0])
+	scheds := loadSchedules(args[1])
+	k, _ := strconv.Atoi(args[2])
+	workers, _ := strconv.Atoi(args[3])
+	start, _ := strconv.Atoi(args[4])
 	defer cleanupSockets()
-	al, gl := worldFor(scheds)
-	w, err := newC19World(al, gl)
+	w, err := newC19World(sp)
 	if err != nil {
 		hlib.Fatal("world: %v", err)
 	}
 	installSessionGates()
-	steps := 0
-	fails := 0
-	for i := a; i < b; i++ {
+	steps, fails, skipped, done := 0, 0, 0, 0
+	var failTime time.Duration
+	sigFails := map[string]int{}
+	for i := start; i < len(scheds); i++ {
+		if i%workers != k {
+			continue
+		}
 		sc := scheds[i]
+		skip := false
+		for _, st := range sc.Steps {
+			if sigFails[st.sig()] >= c19FailsPerSig {
+				skip = true // this kind of step has failed often enough: the verdict does not get clearer
+			}
+		}
+		if skip {
+			skipped++
+			continue
+		}
 		out.Case(i, map[string]interface{}{"schedule": sc.String()})
 		steps += len(sc.Steps)
-		if f := replaySchedule(w, sc); f != nil {
-			out.Fail(f.class, f.detail, map[string]interface{}{"schedule": sc.String(), "expected_open": sc.Open})
+		t0 := time.Now()
+		f, sig := replaySchedule(w, sc)
+		done++
+		if f != nil {
+			out.Fail(f.class, f.detail, map[string]interface{}{"schedule": sc.String(), "expected_open": sc.Open, "services": sp.Adv, "step_kind": sig})
 			fails++
-			if fails >= maxFailsPerChild {
+			failTime += time.Since(t0)
+			sigFails[sig]++
+			if fails >= c19FailsPerChild || failTime >= c19FailTime {
 				out.Extra("stopped_after_failures", float64(fails))
-				out.Eval(i + 1 - a)
-				out.End()
-				w.close()
-				return
+				break
 			}
 		} else if i%2003 == 0 {
 			out.Sample(map[string]interface{}{"schedule": sc.String(), "open": sc.Open})
 		}
 	}
-	out.Eval(b - a)
-	out.Distinct(b - a)
+	out.Eval(done)
+	out.Distinct(done)
 	out.Extra("steps", float64(steps))
+	out.Extra("skipped_after_repeated_failure", float64(skipped))
 	out.End()
 	w.close()
 }
@@ -557,14 +1378,14 @@ func cmdC19ReplayChild(args []string) {
 // ---- free-running driver -------------------------------------------------------------
 
 func cmdC19Free(args []string) {
-	if len(args) < 3 {
-		hlib.Fatal("c19free <out.ndjson> <rounds> <goroutines>")
+	if len(args) < 4 {
+		hlib.Fatal("c19free <world.json> <out.ndjson> <rounds> <goroutines>")
 	}
-	n, _ := strconv.Atoi(args[1])
-	os.Remove(args[0])
+	n, _ := strconv.Atoi(args[2])
+	os.Remove(args[1])
 	res := &hlib.Result{FailCount: map[string]int{}}
-	extra := superviseChunks(res, "session/free", n, 25, 3, func(a, b int) []string {
-		return []string{"c19free-child", args[0], strconv.Itoa(a), strconv.Itoa(b), args[2]}
+	extra := superviseC19(res, "session/free", n, 3, func(k, start int) []string {
+		return []string{"c19free-child", args[0], args[1], strconv.Itoa(k), "3", strconv.Itoa(start), strconv.Itoa(n), args[3]}
 	}, 5*time.Minute, "c19free")
 	for k, v := range extra {
 		res.SetExtra(k, v)
@@ -574,19 +1395,23 @@ func cmdC19Free(args []string) {
 
 // trace record for TraceSession.tla: all fields always present
 type sRec struct {
-	K      string `json:"k"` // reset | hit | miss | dialed | insert | dup | closed | end
+	K      string `json:"k"` // reset | request | hit | miss | dialed | selfail | insert | dup | closed | end
 	Round  int    `json:"round"`
 	Call   string `json:"call"`
+	Svc    string `json:"svc"`
 	Addr   string `json:"addr"`
 	Client int    `json:"client"`
 }
 
 func cmdC19FreeChild(args []string) {
 	out := openChildOut()
-	a, _ := strconv.Atoi(args[1])
-	b, _ := strconv.Atoi(args[2])
-	goroutines, _ := strconv.Atoi(args[3])
-	// at most 5 requests in flight per connection (half of the server's 10-slot queue); more is the
+	sp := loadC19Spec(args[0])
+	wk, _ := strconv.Atoi(args[2])
+	workers, _ := strconv.Atoi(args[3])
+	a, _ := strconv.Atoi(args[4])
+	b, _ := strconv.Atoi(args[5])
+	goroutines, _ := strconv.Atoi(args[6])
+	// at most 4 requests in flight per connection (the server's queue has 10 slots); more is the
 	// "burst" mode, whose only tolerated failure class is the documented queue overflow
 	burst := goroutines > 10
 	mode := "free"
@@ -594,17 +1419,39 @@ func cmdC19FreeChild(args []string) {
 		mode = "burst"
 	}
 	defer cleanupSockets()
-	gl := []string{"g1", "g2", "g3", "g4"}
-	w, err := newC19World([]string{"A", "B"}, gl)
+	w, err := newC19World(sp)
 	if err != nil {
 		hlib.Fatal("world: %v", err)
 	}
-	addrName := map[string]string{w.addrD: "D"}
-	for a, ep := range w.eps {
-		addrName[ep.addr] = a
+	// goroutines with an even number use kinds served by the first endpoint only, the others the rest
+	var kindsA, kindsB []string
+	first := sp.Eps[0]
+	for _, k := range sp.kinds() {
+		u := sp.firstUsable(k)
+		onlyFirst := true
+		for _, x := range sp.Adv[k] {
+			if sp.live(x) && x != first {
+				onlyFirst = false
+			}
+		}
+		if u == "" || onlyFirst {
+			kindsA = append(kindsA, k)
+		} else {
+			kindsB = append(kindsB, k)
+		}
 	}
-	calls := 0
+	if len(kindsB) == 0 {
+		kindsB = kindsA
+	}
+	calls, rounds, fails := 0, 0, 0
 	for r := a; r < b; r++ {
+		if r%workers != wk {
+			continue
+		}
+		if fails >= c19FailsPerChild {
+			break
+		}
+		rounds++
 		out.Case(r, map[string]interface{}{"round": r, "seed": hlib.Seed(), "goroutines": goroutines, "mode": mode})
 		var mu sync.Mutex
 		var evs []vhook.Event
@@ -616,6 +1463,14 @@ func cmdC19FreeChild(args []string) {
 			}
 		})
 		base := w.settle()
+		// the second endpoint refuses some authentications
+		var refuser *switchAuth
+		if !burst && len(sp.Eps) > 1 {
+			refuser = w.eps[sp.Eps[1]].auth
+			atomic.StoreInt32(&refuser.n, 0)
+			atomic.StoreInt32(&refuser.refused, 0)
+			atomic.StoreInt32(&refuser.every, int32(2+(r+int(hlib.Seed()))%3))
+		}
 		sut, err := session.NewSession(w.addrD)
 		if err != nil {
 			hlib.Fatal("session.NewSession: %v", err)
@@ -625,6 +1480,7 @@ func cmdC19FreeChild(args []string) {
 		start := make(chan struct{})
 		var failMu sync.Mutex
 		var fail *seqFail
+		authErrs := 0
 		G := goroutines
 		for i := 0; i < G; i++ {
 			wg.Add(1)
@@ -632,26 +1488,39 @@ func cmdC19FreeChild(args []string) {
 				defer wg.Done()
 				<-start
 				for k := 0; k < 3; k++ {
-					// goroutine i stays on one endpoint (at most G/2 requests in flight per connection)
-					ep := []string{"A", "B"}[i%2]
-					if burst {
-						ep = "A"
+					ks := kindsA
+					if i%2 == 1 {
+						ks = kindsB
 					}
-					name := ep + "." + gl[(i/2+k*3+r+int(hlib.Seed()))%len(gl)]
+					kind := ks[(i/2+k*3+r+int(hlib.Seed()))%len(ks)]
+					if burst {
+						kind = kindsA[0]
+						for _, x := range kindsA {
+							if len(sp.Adv[x]) == 1 && sp.firstUsable(x) != "" {
+								kind = x
+							}
+						}
+					}
+					name := kind + "." + sp.Gor[(i+k)%len(sp.Gor)]
 					p, err := sut.Proxy(name, 1)
 					var rep string
 					if err == nil {
 						rep, err = pong.MakePingPong(sut, p).Hello("x")
 					}
-					if err != nil || rep != "Hello, World!" {
-						failMu.Lock()
-						cl := "request-failed"
-						if err != nil && strings.Contains(err.Error(), "consumer blocked") {
-							cl = "request-dropped-consumer-blocked"
-						}
-						fail = &seqFail{"session/" + mode + "/" + cl, fmt.Sprintf("goroutine %d of %d: Proxy(%s)+Hello: %q, %v", i, G, name, rep, err)}
-						failMu.Unlock()
+					reachable := sp.firstUsable(kind) != ""
+					failMu.Lock()
+					switch {
+					case !reachable && err == nil:
+						fail = &seqFail{"session/" + mode + "/request-should-fail", fmt.Sprintf("goroutine %d of %d: Proxy(%s) succeeded; the service advertises %v", i, G, name, sp.Adv[kind])}
+					case !reachable:
+					case err != nil && strings.Contains(err.Error(), "consumer blocked"):
+						fail = &seqFail{"session/" + mode + "/request-dropped-consumer-blocked", fmt.Sprintf("goroutine %d of %d: Proxy(%s)+Hello: %q, %v", i, G, name, rep, err)}
+					case err != nil && strings.Contains(strings.ToLower(err.Error()), "authentication") && refuser != nil:
+						authErrs++
+					case err != nil || rep != "Hello, World!":
+						fail = &seqFail{"session/" + mode + "/request-failed", fmt.Sprintf("goroutine %d of %d: Proxy(%s)+Hello: %q, %v (the service advertises %v)", i, G, name, rep, err, sp.Adv[kind])}
 					}
+					failMu.Unlock()
 				}
 			}(i)
 		}
@@ -664,19 +1533,47 @@ func cmdC19FreeChild(args []string) {
 			panic("c19free: requests never return")
 		}
 		calls += G * 3
+		refusals := 0
+		if refuser != nil {
+			atomic.StoreInt32(&refuser.every, 0)
+			refusals = int(atomic.LoadInt32(&refuser.refused))
+		}
+		if fail == nil && authErrs > refusals {
+			fail = &seqFail{"session/" + mode + "/request-failed", fmt.Sprintf("%d requests failed with an authentication error, %d authentications were refused", authErrs, refusals)}
+		}
+		// the pool as the events describe it
+		pool := map[string]bool{}
+		mu.Lock()
+		for _, e := range evs {
+			if e.Inst != sutID {
+				continue
+			}
+			ad, _ := kvOf(e, "addr").(string)
+			switch e.Ev {
+			case "insert":
+				pool[ad] = true
+			case "closed":
+				delete(pool, ad)
+			}
+		}
+		mu.Unlock()
 		want := map[string]int64{}
-		for a := range w.eps {
-			want[a] = base[a] + 1
-			if burst && a != "A" {
-				want[a] = base[a]
+		for a, ep := range w.eps {
+			want[a] = base[a]
+			if pool[ep.addr] {
+				want[a]++
 			}
 		}
 		got := w.waitLive(want)
 		vhook.SetSink(nil)
 		if fail == nil {
-			for a := range w.eps {
+			for _, a := range sp.Eps {
 				if got[a] != want[a] {
-					fail = &seqFail{"session/" + mode + "/connections-per-endpoint", fmt.Sprintf("endpoint %s: %d live connection(s) from the session at quiescence, expected %d", a, got[a]-base[a], want[a]-base[a])}
+					cl := "connections-per-endpoint"
+					if refuser != nil && a == sp.Eps[1] && refusals > 0 && got[a]-want[a] <= int64(refusals) && got[a] > want[a] {
+						cl = "refused-connection-left-open"
+					}
+					fail = &seqFail{"session/" + mode + "/" + cl, fmt.Sprintf("endpoint %s: %d live connection(s) from the session at quiescence (server side), the pool holds %d; %d authentication(s) refused", a, got[a]-base[a], want[a]-base[a], refusals)}
 				}
 			}
 		}
@@ -684,24 +1581,29 @@ func cmdC19FreeChild(args []string) {
 		renum := map[int]string{} // call ids renumbered per round: c1, c2, ...
 		mu.Lock()
 		for _, e := range evs {
-			if e.Inst != sutID {
+			if e.Inst != sutID || e.Ev == "connected" {
 				continue
 			}
-			m := e.Map()
 			rec := sRec{K: e.Ev, Round: r}
-			if c, ok := m["call"].(int); ok {
+			if c, ok := kvOf(e, "call").(int); ok {
 				if renum[c] == "" {
 					renum[c] = "c" + strconv.Itoa(len(renum)+1)
 				}
 				rec.Call = renum[c]
 			}
-			if s, ok := m["addr"].(string); ok {
-				rec.Addr = addrName[s]
+			if s, ok := kvOf(e, "addr").(string); ok {
+				rec.Addr = w.model[s]
 				if rec.Addr == "" {
 					rec.Addr = s
 				}
 			}
-			if c, ok := m["client"].(int); ok {
+			if s, ok := kvOf(e, "name").(string); ok {
+				rec.Svc = kindOf(s)
+				if s == "ServiceDirectory" {
+					rec.Svc = "dir"
+				}
+			}
+			if c, ok := kvOf(e, "client").(int); ok {
 				rec.Client = c
 			}
 			recs = append(recs, rec)
@@ -710,7 +1612,8 @@ func cmdC19FreeChild(args []string) {
 		recs = append(recs, sRec{K: "end", Round: r})
 		sut.Terminate()
 		if fail != nil {
-			out.Fail(fail.class, fail.detail, map[string]interface{}{"round": r, "seed": hlib.Seed(), "trace": recs})
+			out.Fail(fail.class, fail.detail, map[string]interface{}{"round": r, "seed": hlib.Seed(), "services": sp.Adv, "trace": recs})
+			fails++
 			continue
 		}
 		var sb strings.Builder
@@ -720,7 +1623,7 @@ func cmdC19FreeChild(args []string) {
 			sb.WriteByte('\n')
 		}
 		appendMu.Lock()
-		f, err := os.OpenFile(args[0], os.O_CREATE|os.O_WRONLY|os.O_APPEND, 0644)
+		f, err := os.OpenFile(args[1], os.O_CREATE|os.O_WRONLY|os.O_APPEND, 0644)
 		if err != nil {
 			hlib.Fatal("open: %v", err)
 		}
@@ -728,8 +1631,8 @@ func cmdC19FreeChild(args []string) {
 		f.Close()
 		appendMu.Unlock()
 	}
-	out.Eval(b - a)
-	out.Distinct(b - a)
+	out.Eval(rounds)
+	out.Distinct(rounds)
 	out.Extra("calls", float64(calls))
 	out.End()
 	w.close()
